@@ -108,7 +108,7 @@ def pdu_agf_nested(sx, depth, inner_len):
     else:
         frame = bytes(bytearray(nested_agf(depth, [0] * inner_len)))
     r = decode_and_show(sx, frame, "pdu.decode:nested-agf")
-    sx.reach("pdu:nested-agf-decoded" if r != "DecodeError" else "pdu:nested-agf-rejected")
+    sx.reach("pdu:nested-agf-done")
     return [r, len(frame)]
 
 
@@ -437,6 +437,18 @@ def dep_target_session(sx, brty, atr, first, steps, send_len):
     return out
 
 
+def dep_target_tox(sx, brty, shape):
+    """Target.send_timeout_extension(): the initiator's answer is arbitrary"""
+    clf = envp.ScriptClf(sx)
+    t = nfc.dep.Target(clf)
+    t.target = nfc.clf.LocalTarget(brty)
+    t.miu, t.did, t.nad, t.rwt, t.pni, t.cmd = 61, None, None, 0.0003, 1, None
+    clf.script = lazy_items(sx, "q", [[shape], ["timeout"]], lambda: brty, False)
+    st, r = dep_call(sx, "dep.Target.send_timeout_extension", t.send_timeout_extension, 5)
+    sx.reach("dep:target-tox-" + st)
+    return [st, r]
+
+
 # ----------------------------------------------------------------------------
 # (3) nfc.llcp.llc - activation parameters and the run loop
 # ----------------------------------------------------------------------------
@@ -734,6 +746,8 @@ def snep_serve(sx, lens, miu_s2c, max_len):
         cs.connect("urn:nfc:sn:snep")
         for f in frags:
             cs.send(f)
+        while cs.poll("recv", 0.1):     # let the server work; read its answers
+            cs.recv()
         cs.close()
         link.finish()
     drive(sx, "snep.server._serve", link, body)
@@ -790,6 +804,8 @@ def handover_serve(sx, lens, miu_s2c):
         cs.connect("urn:nfc:sn:handover")
         for f in frags:
             cs.send(f)
+        while cs.poll("recv", 0.1):     # let the server work; read its answers
+            cs.recv()
         cs.close()
         link.finish()
     drive(sx, "handover.server.serve", link, body)
@@ -814,6 +830,15 @@ class FuzzPeer(PeerEnv):
         PeerEnv.__init__(self, sx, trace, role, max_symm=0, ends=("timeout",))
         self.gb = list(gb)
         self.frames = list(frames)
+        self.acm_atr_res = None     # ATR_RES reported by the driver's sense_dep
+
+    def sense(self, kind, target):
+        if kind == "dep" and self.acm_atr_res is not None and not self.left:
+            t = nfc.clf.RemoteTarget("106A", atr_res=self.acm_atr_res,
+                                     atr_req=target.atr_req)
+            self.active = t
+            return t
+        return PeerEnv.sense(self, kind, target)
 
     def listen(self, kind, target, timeout):
         t = PeerEnv.listen(self, kind, target, timeout)
@@ -833,6 +858,12 @@ class FuzzPeer(PeerEnv):
         return self.sx.mkbytes([len(f) + 4, 0xD4, 0x06, self.pni] + f)
 
     def cmd(self, target, data, timeout):
+        if target.brty == "106A" and len(data) > 0 and data[0] == 0xF0:
+            r = self.cmd212(target, data[1:], timeout)
+            return self.sx.mkbytes([0xF0] + list(r))
+        return self.cmd212(target, data, timeout)
+
+    def cmd212(self, target, data, timeout):
         if self.active is not None and target is self.active and not self.left \
                 and len(data) > 3 and data[1] == 0xD4 and data[2] == 0x06 \
                 and data[3] & 0xE0 == 0x00:
@@ -842,6 +873,30 @@ class FuzzPeer(PeerEnv):
             f = list(self.frames.pop(0))
             return self.sx.mkbytes([len(f) + 4, 0xD5, 0x07, data[3] & 3] + f)
         return PeerEnv.cmd(self, target, data, timeout)
+
+
+def connect_llcp_acm(sx, atr):
+    """clf.connect(llcp=...) as initiator with a driver that supports active
+    communication mode: sense_dep reports the target's ATR_RES (arbitrary)"""
+    tr = Trace()
+    env = FuzzPeer(sx, tr, "target", GB_OK, [SYMM, SYMM])
+    env.acm_atr_res = atr_bytes(sx, "atr", atr, True)
+    dev = RecDevice(sx, env, tr)
+    clf = make_frontend(dev)
+    seen = []
+
+    def on_connect(llc):
+        seen.append(llc)
+        return True
+    entry = "clf.connect:llcp-acm"
+    try:
+        st, r = guarded(sx, entry, (), clf.connect, terminate=poller(40), llcp={
+            'role': 'initiator', 'sec': False, 'brs': 0, 'on-connect': on_connect})
+    except HarnessLimit:
+        sx.check(False, "endless-loop:" + entry)
+    sx.reach("connect:llcp-acm-" + ("link-ran" if seen else "no-link"))
+    sx.check(r is (True if seen else None), "connect-result-wrong:" + entry)
+    return bool(seen)
 
 
 def poller(K):
@@ -1034,6 +1089,10 @@ def partitions(tier):
             add("dep-ts:%s:%s" % (brty, first), "dep_target_session", brty=brty,
                 atr="fixed:0", first=first,
                 steps=[["timeout", "DEP:1", "DSL:0", "raw:0"]], send_len=2)
+        add("dep-ta:%s:no-dep-req" % brty, "dep_target_session", brty=brty, atr="fixed:0",
+            first="raw:0", steps=[], send_len=2)
+        for q in ("DEP:0", "DEP:1", "DEP:2", "raw:0", "raw:1", "raw:3", "DSL:0", "timeout", "crc"):
+            add("dep-tox:%s:%s" % (brty, q), "dep_target_tox", brty=brty, shape=q)
         for q in REQ:
             steps = [[q], ["timeout", "DEP:1", "DSL:0", "raw:0"]] if quick else \
                 [[q], REQ2, ["timeout", "DEP:1"]]
@@ -1107,6 +1166,8 @@ def partitions(tier):
             for n in ((2, 3) if quick else (2, 3, 4, 5)):
                 add("connect-llcp:%s:%s:%d" % (role, where, n), "connect_llcp", role=role,
                     shape="ok", where=where, n=n)
+    for atr in ("any:0", "any:2", "hdr:0", "hdr:14", "valid:0", "valid:3", "fixed:0"):
+        add("connect-acm:" + atr, "connect_llcp_acm", atr=atr)
     for lens in ([1], [5], [9], [5, 0], [5, 1], [5, 6], [9, 10], [5, 2, 6]) + \
             (() if quick else ([11], [5, 11], [5, 3])):
         add("connect-card:" + "+".join(map(str, lens)), "connect_card", lens=list(lens))
@@ -1128,17 +1189,18 @@ def partitions(tier):
     return P
 
 
-MUST_REACH = ["pdu:decode-error", "pdu:decoded", "pdu:nested-agf-decoded",
+MUST_REACH = ["pdu:decode-error", "pdu:decoded", "pdu:nested-agf-done",
               "dep:pdu-protocol-error", "dep:pdu-decoded", "dep:pdu-not-mine",
               "dep:frame-error", "dep:frame-decoded",
               "dep:initiator-exchanged", "dep:initiator-exchange-error",
-              "dep:initiator-activate-error", "dep:initiator-not-activated",
+              "dep:initiator-not-activated", "dep:target-tox-ok", "dep:target-tox-exc",
               "dep:initiator-activated", "dep:target-not-activated",
               "dep:target-activated", "dep:target-first-request", "dep:target-exchanged",
               "llc:not-activated", "llc:activated", "llc:ran-with-peer-parameters",
               "llc:run-returned",
               "snep:server-returned", "snep:client-returned", "snep:client-error",
               "handover:server-returned", "connect:llcp-link-ran", "connect:llcp-no-link",
+              "connect:llcp-acm-link-ran", "connect:llcp-acm-no-link",
               "connect:card-returned",
               "tt3:ignored", "tt3:answered", "tt3:dialog-ended"]
 LIMITS = {"quick": dict(witness_cap=30), "thorough": dict(witness_cap=120)}
